@@ -74,6 +74,12 @@ class VCRuntime:
         u = self._unit()
         return u.loop_specs.get((self.fn_id, k)) or u.loop_specs.get(k) or getattr(u, "default_loop_spec", None)
 
+    # -- reachability record ---------------------------------------------------
+    def mark(self, arm):
+        c = ctx()
+        if c is not None:
+            c.marks.add(f"{self.fn_id}@{arm}")
+
     # -- builtins -----------------------------------------------------------
     def b_len(self, x):
         if isinstance(x, (SBytes, SSeq)):
